@@ -5,7 +5,7 @@
     predict every API result, event, counter and half presence the implementation reports
     ([StreamSM.oracle] = [StreamSpec.spec_oracle]). *)
 From QV Require Import Lib.Tac Lib.Corr Model.FlowRecv Model.StreamSpec Model.StreamSM
-  Proofs.FlowRecvProofs Proofs.StreamSMProofs.
+  Proofs.FlowRecvProofs Proofs.StreamSMProofs Proofs.FinishedOnce.
 Open Scope Z_scope.
 
 (** * api_refines_spec (partial: receive half, results of stop and received_reset)
@@ -44,13 +44,23 @@ Theorem C11_finished_only_after_full_ack : forall id a b fin s,
 Proof. exact ack_finished. Qed.
 Print Assumptions C11_finished_only_after_full_ack.
 
-(** Full statements over all op sequences (not proved; checked by the oracle on every run). *)
-Definition count_event (e : list Z) (l : list (list Z)) : nat :=
-  length (filter (fun x => lz_eqb x e) l).
-Definition C11_finished_once_full : Prop :=
-  forall cfg i s (id : Z), reach_sm cfg i = Some s -> panic s = false ->
-    (* over the whole history (polled events + queue) at most one Finished per stream *)
-    Z.of_nat (count_event [4; id] (events s)) <= 1.
+(** Full statement over all op sequences (not proved; checked by the oracle on every run). *)
+(** * finished_once (all op sequences)
+    [g_fin s] is the ghost list of stream ids for which the model emitted [Finished] (it is
+    extended exactly where [ack_frame] pushes the event — the only place a Finished is pushed),
+    [g_reset s] the ids on which the application's reset() succeeded.  For every configuration and
+    every op sequence (application calls, frames, transmissions, acks and losses in any order):
+    Finished is emitted at most once per stream, never for a stream that was reset (neither before
+    nor after the reset), and the send half of a Finished stream is gone for good. *)
+Theorem C11_finished_once : forall sd mru mrb rw srw pmb pmu i s,
+  (sd = 0 \/ sd = 1) -> 0 <= mrb ->
+  reach_sm [0; sd; mru; mrb; rw; srw; pmb; pmu] i = Some s ->
+  NoDup (g_fin s) /\
+  (forall id, In id (g_reset s) -> ~ In id (g_fin s)) /\
+  (forall id, In id (g_fin s) -> alookup id (sendm s) = None).
+Proof. exact finished_once. Qed.
+Print Assumptions C11_finished_once.
+
 Definition C11_concurrency_accounting_full : Prop :=
   forall cfg i s d, reach_sm cfg i = Some s -> panic s = false -> (d = 0 \/ d = 1) ->
     pget d (alloc s) = pget d (max_conc s) /\ 0 <= pget d (alloc s).
